@@ -39,6 +39,7 @@ type Ctx struct {
 	domCache map[*ssa.Function]*domInfo
 	summ     map[string]map[*ssa.Function]bool
 	imports  map[string]*Report
+	decodeSet map[*ssa.Function]bool
 }
 
 // runCached runs a property's rule set once per loaded configuration; shared
